@@ -225,7 +225,8 @@ def _resolve_fname(example_fname='!data/example.gb'):
                         archive = None
                     with tempfile.TemporaryDirectory() as tmpdir:
                         shutil.unpack_archive(fname, tmpdir, archive)
-                        globexpr = os.path.join(tmpdir, '**/*.*')
+                        # every file of the archive, also one without a dot in its name (write('data', 'fasta', archive=...))
+                        globexpr = os.path.join(tmpdir, '**/*')
                         res = new_reader(globexpr, *args, **kw)
                         if not isinstance(res, (BioBasket, FeatureList)):
                             # iter_ was wrapped: the generator is lazy, read the files before the directory is removed
